@@ -1,3 +1,4 @@
+import Tengo.Props.VM
 import Tengo.Model.TailCall
 import Tengo.Gen.TailCallShape
 import Tengo.Gen.Limits
